@@ -491,7 +491,13 @@ class Engine:
                     t=z3.BitVecVal(deref(base.items[n-1]).v,first.w)
                     for k in range(n-2,-1,-1): t=z3.If(iv.v==k,z3.BitVecVal(deref(base.items[k]).v,first.w),t)
                     return Ref(Cell(Int(first.w,first.s,z3.simplify(t))))
-                raise Unsupported('symbolic index')
+                if isinstance(base,(Str,StringO)) and base.b and all(isinstance(x,int) for x in base.b) and len(base.b)<=256:
+                    n=len(base.b)
+                    if run.branch_bool(Bool(z3.UGE(iv.v,n)),'index_oob'): raise Panic(body.name+': index out of bounds (symbolic)','index')
+                    t=z3.BitVecVal(base.b[n-1],8)
+                    for k in range(n-2,-1,-1): t=z3.If(iv.v==k,z3.BitVecVal(base.b[k],8),t)
+                    return Ref(Cell(Int(8,False,z3.simplify(t))))
+                raise Unsupported('symbolic index into '+repr(base)[:120])
             if isinstance(base,VecO):
                 if iv.v>=len(base.items): raise Panic(body.name+': index out of bounds','index')
                 return Ref(base,iv.v)
